@@ -274,6 +274,9 @@ pub fn features(v: &SqlValue) -> Vec<&'static str> {
             if f != 0.0 && f.abs() < 1e-5 {
                 out.push("mag_small");
             }
+            if f.fract() == 0.0 {
+                out.push("whole");
+            }
             if f < 0.0 {
                 out.push("neg");
             }
@@ -284,17 +287,27 @@ pub fn features(v: &SqlValue) -> Vec<&'static str> {
         out.push("plain");
     }
     fn sf(s: &str, out: &mut Vec<&'static str>) {
+        // a line inside the string that starts with "--" (the dump loader drops comment lines)
+        if s.split('\n').skip(1).any(|l| l.trim_start().starts_with("--")) {
+            out.push("newline_dashdash");
+        }
+        // backslash directly before a quote or as the last character (before the closing quote),
+        // also across a line break (the dump loader joins the lines of a string)
+        let joined = s.replace("\r\n", "").replace('\n', "");
+        if joined.contains("\\'") || joined.ends_with('\\') {
+            out.push("backslash_quote");
+        }
         if s.contains('\n') {
             out.push("newline");
         }
         if s.contains('\r') {
             out.push("cr");
         }
-        if s.contains("--") {
-            out.push("dashdash");
-        }
         if s.contains('\\') {
             out.push("backslash");
+        }
+        if s.contains("--") {
+            out.push("dashdash");
         }
         if s.contains('\'') {
             out.push("quote");
@@ -333,12 +346,7 @@ pub fn features(v: &SqlValue) -> Vec<&'static str> {
     let mut out = Vec::new();
     match v {
         SqlValue::Null => out.push("null"),
-        SqlValue::Smallint(i) => {
-            if *i < 0 {
-                out.push("neg");
-            }
-            out.push("plain");
-        }
+        SqlValue::Smallint(_) => out.push("plain"),
         SqlValue::Integer(i) | SqlValue::Bigint(i) => {
             if *i == i64::MIN {
                 out.push("i64_min");
@@ -391,7 +399,7 @@ pub fn is_awkward(v: &SqlValue) -> bool {
     features(v).iter().any(|f| {
         matches!(
             *f,
-            "nan" | "inf" | "neg_zero" | "subnormal" | "digits_gt_15" | "scale_gt_22" | "mag_large" | "mag_small" | "i64_min" | "i64_max" | "beyond_2_53" | "newline" | "cr" | "dashdash" | "backslash"
+            "nan" | "inf" | "neg_zero" | "subnormal" | "digits_gt_15" | "scale_gt_22" | "mag_large" | "mag_small" | "i64_min" | "i64_max" | "beyond_2_53" | "newline_dashdash" | "newline" | "cr" | "dashdash" | "backslash_quote" | "backslash"
                 | "quote" | "semicolon" | "dquote" | "tab" | "non_ascii" | "frac_fine" | "year_lt_1000"
         )
     })
@@ -400,7 +408,7 @@ pub fn is_awkward(v: &SqlValue) -> bool {
 /// metacharacter / extreme classes of C19's non-triviality rule
 pub fn is_c19_hazard(v: &SqlValue) -> bool {
     features(v).iter().any(|f| {
-        matches!(*f, "nan" | "inf" | "neg_zero" | "subnormal" | "digits_gt_15" | "scale_gt_22" | "mag_large" | "mag_small" | "i64_min" | "i64_max" | "beyond_2_53" | "neg" | "newline" | "cr" | "dashdash" | "backslash" | "quote" | "semicolon" | "dquote" | "tab")
+        matches!(*f, "nan" | "inf" | "neg_zero" | "subnormal" | "digits_gt_15" | "scale_gt_22" | "mag_large" | "mag_small" | "i64_min" | "i64_max" | "beyond_2_53" | "neg" | "newline_dashdash" | "newline" | "cr" | "dashdash" | "backslash_quote" | "backslash" | "quote" | "semicolon" | "dquote" | "tab")
     })
 }
 
@@ -597,7 +605,7 @@ fn simple_value(ty: &Ty) -> V {
         Ty::Real => V::Real(1.5f32.to_bits()),
         Ty::Float(_) => V::Float(1.5f32.to_bits()),
         Ty::Double => V::Double(1.5f64.to_bits()),
-        Ty::Num(..) => V::Num(1.0f64.to_bits()),
+        Ty::Num(..) => V::Num(1.25f64.to_bits()),
         Ty::Bool => V::Bool(true),
         Ty::Varchar(_) | Ty::Text => V::Varchar("a".into()),
         Ty::Char(_) => V::Char("a".into()),
